@@ -6,11 +6,11 @@ package main
 
 import (
 	"fmt"
-	"os"
 	"go/constant"
 	"go/token"
 	"go/types"
 	"math/big"
+	"os"
 	"sort"
 	"strings"
 
@@ -36,16 +36,19 @@ type Obligation struct {
 	Fn     string
 	Pos    string
 	// result
-	Status string // unsat sat unknown timeout static
-	Solver string
-	Time   float64
-	Model  string
-	SMTLen int
-	Cover  bool // must be satisfiable (vacuity guard)
-	smtFile    string
-	allSolvers map[string]string
-	contract   *Contract
-	clause     *Clause
+	Status      string // unsat sat unknown timeout static
+	Solver      string
+	Time        float64
+	Model       string
+	SMTLen      int
+	Cover       bool // must be satisfiable (vacuity guard)
+	smtFile     string
+	allSolvers  map[string]string
+	contract    *Contract
+	clause      *Clause
+	script      string
+	scriptQF    string
+	candidateQF bool
 }
 
 type ModelFn func(c *CallCtx) *Term
@@ -173,21 +176,22 @@ func (e *Engine) axiom(t *Term) {
 }
 
 type Frame struct {
-	fn      *ssa.Function
-	path    string
-	defers  []deferRec
-	rets    []retRec
-	caller  *Frame
-	oldSt   *State // pre-state for old(...) in clause functions
-	oldIns  map[ssa.Instruction]bool
-	allOld  bool
-	loops   []*loopInfo
-	loopOf  map[*ssa.BasicBlock]*loopInfo // header -> loop
-	rpo     []*ssa.BasicBlock
-	rpoIdx  map[*ssa.BasicBlock]int
-	entrySt *State
-	clause  bool // executing a contract clause / spec function: no obligations
-	iter    string
+	fn        *ssa.Function
+	path      string
+	defers    []deferRec
+	rets      []retRec
+	caller    *Frame
+	oldSt     *State // pre-state for old(...) in clause functions
+	oldIns    map[ssa.Instruction]bool
+	allOld    bool
+	loops     []*loopInfo
+	loopOf    map[*ssa.BasicBlock]*loopInfo // header -> loop
+	rpo       []*ssa.BasicBlock
+	rpoIdx    map[*ssa.BasicBlock]int
+	entrySt   *State
+	clause    bool // executing a contract clause / spec function: no obligations
+	freshBase *Term
+	iter      string
 }
 
 type deferRec struct {
@@ -327,6 +331,13 @@ func (e *Engine) execFunction(fn *ssa.Function, args []*Term, bindings []*Term, 
 	if oldSt != nil {
 		fr.oldIns = e.oldSlice(fn)
 	}
+	if ct := e.contracts[fnName(fn)]; ct != nil && len(ct.Assumes) > 0 && !fr.clause {
+		for _, cl := range ct.Assumes {
+			g := e.evalClause(fr, cl, args, nil, s0, s0, pc)
+			e.assume(pc, g)
+			e.note("assumed in contract of " + shortFn(fn) + ": " + cl.Label + ": " + cl.Expr)
+		}
+	}
 	exits, _ := e.runRegion(fr, fr.rpo, map[*ssa.BasicBlock][]edge{fn.Blocks[0]: {{pc: pc, st: s0}}}, nil)
 	_ = exits
 	if len(fr.rets) == 0 {
@@ -339,6 +350,7 @@ func (e *Engine) execFunction(fn *ssa.Function, args []*Term, bindings []*Term, 
 		pcs = append(pcs, r.pc)
 	}
 	out := e.mergeStates(edges)
+	rel := relativize(edges)
 	var res *Term
 	for i := len(fr.rets) - 1; i >= 0; i-- {
 		v := fr.rets[i].val
@@ -348,7 +360,7 @@ func (e *Engine) execFunction(fn *ssa.Function, args []*Term, bindings []*Term, 
 		if res == nil {
 			res = v
 		} else {
-			res = Ite(fr.rets[i].pc, v, res)
+			res = Ite(rel[i].pc, v, res)
 		}
 	}
 	out.vals = st.vals
@@ -426,6 +438,7 @@ func (e *Engine) runRegion(fr *Frame, blocks []*ssa.BasicBlock, entries map[*ssa
 			continue
 		}
 		st := e.mergeStates(edgesIn)
+		edgesIn = relativize(edgesIn)
 		// phis
 		for _, ins := range b.Instrs {
 			phi, ok := ins.(*ssa.Phi)
@@ -483,6 +496,11 @@ type outEdge struct {
 
 func (e *Engine) runLoop(fr *Frame, li *loopInfo, edgesIn []edge) map[*ssa.BasicBlock][]edge {
 	invs := e.loopInvariants(fr.fn, li.ordinal)
+	symLimit := 2
+	if invs != nil && invs.Unroll > 0 {
+		symLimit = invs.Unroll
+		invs = nil
+	}
 	exitsAcc := map[*ssa.BasicBlock][]edge{}
 	add := func(m map[*ssa.BasicBlock][]edge) {
 		for t, es := range m {
@@ -517,7 +535,7 @@ func (e *Engine) runLoop(fr *Frame, li *loopInfo, edgesIn []edge) map[*ssa.Basic
 			}
 			if liveExit {
 				symbolicIters++
-				if symbolicIters > 2 {
+				if symbolicIters > symLimit {
 					break
 				}
 			}
@@ -654,6 +672,13 @@ func (e *Engine) havocFor(fr *Frame, stIn *State, phis []*ssa.Phi, dirty map[str
 	for _, phi := range phis {
 		f := Fresh("phi:"+phi.Comment, e.tr.sortOf(phi.Type()))
 		stH.vals[phi] = f
+		if phi.Comment == "rangeindex" {
+			// the implicit index of a range loop starts at -1 and only grows
+			e.axiom(Ge(f, IntT(-1)))
+		}
+		if phi.Comment == "rangeint.iter" {
+			e.axiom(Ge(f, IntT(0)))
+		}
 		e.wellFormedValue(phi.Type(), f, e.comp(stH, allocComp))
 	}
 	return stH
@@ -662,31 +687,44 @@ func (e *Engine) havocFor(fr *Frame, stIn *State, phis []*ssa.Phi, dirty map[str
 // wellFormedValue assumes that a fresh symbolic value of type t refers to
 // allocated objects only.
 func (e *Engine) wellFormedValue(t types.Type, v *Term, bound *Term) {
+	e.wellFormedValueIf(True, t, v, bound)
+}
+
+// wellFormedValueIf: the same, under a guard (used for values read from a
+// memory cell that is only known to be meaningful if it was allocated).
+func (e *Engine) wellFormedValueIf(g *Term, t types.Type, v *Term, bound *Term) {
+	ax := func(f *Term) { e.axiom(Implies(g, f)) }
+	note := func(x *Term) {
+		if g.IsTrue() {
+			NoteUpperBound(x, bound)
+		}
+	}
 	switch e.tr.sortOf(t) {
 	case LocS:
-		e.axiom(Lt(LocObj(v), bound))
-		e.axiom(Ge(LocObj(v), IntT(0)))
-		NoteUpperBound(LocObj(v), bound)
+		ax(Lt(LocObj(v), bound))
+		ax(Ge(LocObj(v), IntT(0)))
+		note(LocObj(v))
 	case SliceS:
-		NoteUpperBound(LocObj(SliceBase(v)), bound)
-		e.axiom(Lt(LocObj(SliceBase(v)), bound))
-		e.axiom(Ge(LocObj(SliceBase(v)), IntT(0)))
-		e.axiom(Ge(SliceLen(v), IntT(0)))
-		e.axiom(Ge(SliceOff(v), IntT(0)))
-		e.axiom(Le(SliceLen(v), SliceCap(v)))
+		note(LocObj(SliceBase(v)))
+		ax(Lt(LocObj(SliceBase(v)), bound))
+		ax(Ge(LocObj(SliceBase(v)), IntT(0)))
+		ax(Ge(SliceLen(v), IntT(0)))
+		ax(Ge(SliceOff(v), IntT(0)))
+		ax(Le(SliceLen(v), SliceCap(v)))
 	case IntS:
 		if _, isMap := t.Underlying().(*types.Map); isMap {
-			e.axiom(Lt(v, bound))
-			e.axiom(Ge(v, IntT(0)))
+			ax(Lt(v, bound))
+			ax(Ge(v, IntT(0)))
+			note(v)
 		} else if b, ok := t.Underlying().(*types.Basic); ok && b.Info()&types.IsUnsigned != 0 {
-			e.axiom(Ge(v, IntT(0)))
+			ax(Ge(v, IntT(0)))
 			if w := basicWidth(b); w > 0 && w < 64 {
-				e.axiom(Lt(v, pow2(w)))
+				ax(Lt(v, pow2(w)))
 			}
 		}
 	case IfaceS:
 		val := IfaceVal(v)
-		e.axiom(Implies(IsCtor(AnyS, "a_loc", val), And(Lt(LocObj(Sel(AnyS, "a_loc", "aloc", val)), bound), Ge(LocObj(Sel(AnyS, "a_loc", "aloc", val)), IntT(0)))))
+		ax(Implies(IsCtor(AnyS, "a_loc", val), And(Lt(LocObj(Sel(AnyS, "a_loc", "aloc", val)), bound), Ge(LocObj(Sel(AnyS, "a_loc", "aloc", val)), IntT(0)))))
 	}
 }
 
@@ -858,7 +896,7 @@ func (e *Engine) execInstr(fr *Frame, ins ssa.Instruction, st *State, pc *Term) 
 				st.vals[in] = l
 				break
 			}
-			st.vals[in] = ElemLoc(SliceBase(x), Add(SliceOff(x), i))
+			st.vals[in] = ElemLoc(SliceBase(x), ElemIndex(SliceOff(x), i))
 		default:
 			panic("IndexAddr on " + in.X.Type().String())
 		}
@@ -869,7 +907,7 @@ func (e *Engine) execInstr(fr *Frame, ins ssa.Instruction, st *State, pc *Term) 
 			st.vals[in] = StrToCode(StrAt(x, i))
 		} else {
 			at := in.X.Type().Underlying().(*types.Array)
-			l := ElemLoc(SliceBase(x), Add(SliceOff(x), i))
+			l := ElemLoc(SliceBase(x), ElemIndex(SliceOff(x), i))
 			st.vals[in] = e.loadAt(rd, at.Elem(), l, compElem(at.Elem()))
 		}
 	case *ssa.UnOp:
@@ -1039,19 +1077,23 @@ func (e *Engine) execInstr(fr *Frame, ins ssa.Instruction, st *State, pc *Term) 
 
 func (e *Engine) noteLoadedMapVal(st *State, mt *types.Map, raw *Term) {
 	// values read from a pre-existing map are pre-existing objects
-	if raw.Op != "select" || raw.Args[0].Op != "select" || raw.Args[0].Args[0].Op != "sym" {
+	if raw.Op != "select" || raw.Args[0].Op != "select" || raw.Args[0].Args[0].Op != "sym" || e.alloc0 == nil {
 		return
 	}
-	bound, ok := e.heapBound[raw.Args[0].Args[0].SVal]
-	if !ok || e.loadedFacts[raw.id] {
+	name := raw.Args[0].Args[0].SVal
+	bound, ok := e.heapBound[name]
+	if !ok {
+		if !strings.HasPrefix(name, "0:") {
+			return
+		}
+		bound = e.alloc0
+	}
+	if e.loadedFacts[raw.id] {
 		return
 	}
 	e.loadedFacts[raw.id] = true
-	switch e.tr.sortOf(mt.Elem()) {
-	case LocS:
-		e.axiom(Lt(LocObj(raw), bound))
-		e.axiom(Ge(LocObj(raw), IntT(0)))
-	}
+	mapID := raw.Args[0].Args[1]
+	e.wellFormedValueIf(And(Lt(mapID, bound), Gt(mapID, IntT(0))), mt.Elem(), raw, bound)
 }
 
 func (e *Engine) fieldAddr(p *Term, structT types.Type, k int) *Term {
@@ -1279,7 +1321,7 @@ func (e *Engine) sliceOp(fr *Frame, in *ssa.Slice, st, rd *State, pc *Term) {
 		if in.Max != nil {
 			cp = Sub(e.value(fr, st, in.Max), lo)
 		}
-		st.vals[in] = MkSlice(SliceBase(x), Add(SliceOff(x), lo), Sub(hi, lo), cp)
+		st.vals[in] = MkSlice(SliceBase(x), ElemIndex(SliceOff(x), lo), Sub(hi, lo), cp)
 	default:
 		panic("slice of " + in.X.Type().String())
 	}
